@@ -198,3 +198,53 @@ Definition gen_build_id (d : bytes) (s : list bytes) : bytes :=
 
 Definition gen_build_id_fixed (d : bytes) (s : list bytes) : bytes :=
   with_suffix d (next_free (fun n => memb n s) d (S (length (filter (prefixb d) s))) (S (length s))).
+
+(* ---- build_id, third body (findings/D23_build_id_monotone.diff): a loop
+   `for _p in "$1/${_d}".<star>` that takes _n="${_p##<star>.}", skips _n when
+   it is empty, starts with 0 or holds a byte that is not a digit, keeps the
+   largest remaining _n in _c (test -gt), and prints DATE.(_c + 1).
+   The glob sees the entries directly below the root, of any kind, whose name
+   starts with DATE and a dot; the parameter expansion yields what follows the
+   last dot of the name; the numbers are [N] here: the shell's 64-bit
+   arithmetic is not modelled, suffixes stay below 2^63 in the correspondence. *)
+Fixpoint after_last_dot (s : bytes) (cur : bytes) : bytes :=
+  match s with
+  | [] => List.rev cur
+  | c :: s' => if c =? 46 then after_last_dot s' [] else after_last_dot s' (c :: cur)
+  end.
+
+Definition digit_byte (c : byte) : bool := (48 <=? c) && (c <=? 57).
+
+Fixpoint digits_val (acc : N) (ds : bytes) : N :=
+  match ds with
+  | [] => acc
+  | c :: r => digits_val (acc * 10 + (c - 48)) r
+  end.
+
+Definition suffix_num (ds : bytes) : option N :=
+  match ds with
+  | [] => None
+  | c :: _ => if c =? 48 then None
+              else if forallb digit_byte ds then Some (digits_val 0 ds) else None
+  end.
+
+(* the suffix a name contributes to the maximum, if any *)
+Definition day_suffix (date : bytes) (name : bytes) : option N :=
+  if prefixb (date ++ [46]) name then suffix_num (after_last_dot name []) else None.
+
+Definition max_suffix (date : bytes) (names : list bytes) : N :=
+  fold_left (fun m n => match day_suffix date n with Some k => N.max m k | None => m end) names 0.
+
+(* printf %d of a number that is not negative *)
+Definition decN (n : N) : bytes := uint_bytes (N.to_uint n).
+
+Definition with_suffixN (stem : bytes) (k : N) : bytes := stem ++ 46 :: decN k.
+
+Definition gen_build_id_max (d : bytes) (s : list bytes) : bytes :=
+  with_suffixN d (N.succ (max_suffix d s)).
+
+Definition top_level (tree : list entry) : list bytes :=
+  flat_map (fun e => match e_path e with [n] => [n] | _ => [] end) tree.
+
+Definition build_id_max (date start start_base : bytes) (tree : list entry) : bytes :=
+  gen_build_id_max date (top_level tree).
